@@ -2,9 +2,9 @@
 use crate::core::f64_to_bits;
 use crate::rng::Rng;
 
-pub const CLASSES: [&str; 16] = [
+pub const CLASSES: [&str; 17] = [
     "uniform", "lattice", "allequal", "twovalued", "duppoints", "euclid", "geomline", "blobs", "sorted",
-    "revsorted", "magnitude", "negmixed", "colmajor", "linewalk", "shrinkline", "ulpties",
+    "revsorted", "magnitude", "negmixed", "colmajor", "linewalk", "shrinkline", "ulpties", "signedzeros",
 ];
 
 /// Points on a line with strictly growing gaps, observation 0 leftmost, the others numbered so that a
@@ -159,6 +159,38 @@ pub fn matrix(rng: &mut Rng, class: &str, n: usize) -> Vec<f64> {
                         let k = if rng.below(3) == 0 { rng.below((2 * spread + 1) as u64) as i64 - spread } else { 0 };
                         out.push(v + k as f64 * ulp);
                     }
+                }
+            }
+            out
+        }
+        "signedzeros" => {
+            // +0.0 and -0.0 are EQUAL values with different bit patterns: anything that orders or
+            // hashes by bits instead of by value treats them as different
+            let hi = *rng.pick(&[1.0, 2.0, 0.5]);
+            (0..len)
+                .map(|_| match rng.below(5) {
+                    0 => 0.0,
+                    1 | 2 => -0.0,
+                    3 => hi,
+                    _ => 2.0 * hi,
+                })
+                .collect()
+        }
+        "neargap" => {
+            // a few levels, every entry = level * (1 + k * delta) with small distinct k per level:
+            // candidates separated by gaps far above rounding error (>= 1e-11 relative) but below any
+            // "reasonable" tolerance (1e-10 .. 1e-8)
+            let delta = 10f64.powf(-11.0 + 2.0 * rng.unit());
+            let levels = [1.0, 1.5, 2.0, 3.0, 5.0];
+            let nl = 1 + rng.below(3) as usize;
+            let lv: Vec<usize> = (0..len).map(|_| rng.below(nl as u64) as usize).collect();
+            let mut out = vec![0.0; len];
+            for l in 0..nl {
+                let idx: Vec<usize> = (0..len).filter(|&i| lv[i] == l).collect();
+                let mut ks: Vec<u64> = (0..idx.len() as u64).collect();
+                rng.shuffle(&mut ks);
+                for (j, &i) in idx.iter().enumerate() {
+                    out[i] = levels[l] * (1.0 + ks[j] as f64 * delta);
                 }
             }
             out
